@@ -122,20 +122,6 @@ class MsgModel:
         return out
 
 
-class VirtualEvent:
-    """a send seen through one of the sources that filled the iterated local collection"""
-    def __init__(self, ev, pc):
-        self.ev = ev
-        self.pc = pc
-        self.node = ev.node
-        self.loops = ev.loops
-        self.seq = ev.seq
-        self.guards = ev.guards
-        self.kind = ev.kind
-        self.data = ev.data
-        self.fn = ev.fn
-
-
 def _is_tt(t, name):
     return isinstance(t, tuple) and t and t[0] == 'adt' and t[1].endswith('PrivMsgTargetType') and t[2] == name
 
